@@ -10,7 +10,7 @@ from __future__ import annotations
 import ast
 import re
 
-from ..core import UNKNOWN, AnalysisError, FuncInfo, body_no_doc, norm, walk_no_nested
+from ..core import UNKNOWN, AnalysisError, FuncInfo, body_no_doc, call_name, norm, walk_no_nested
 from ..strflow import parts
 from ..tables import _elif_arms, if_chains
 
@@ -444,11 +444,89 @@ def r18d(ctx):
                        f"{'-' if negative else ''}(86400000000*D + 1000000*S + U) with 0 <= S < 86400: e.g. -1 hour is days=-1, seconds=82800 and must encode as -PT01H00M00S")
 
 
+_NUM_REWRITE = {"normalize", "quantize", "to_eng_string", "to_integral", "to_integral_value", "to_integral_exact", "scaleb", "as_integer_ratio", "__format__", "__round__"}
+
+
+def r18e(ctx):
+    """A length is written as the digits it was given, followed by its unit.
+
+    ODF's `length` is `-?([0-9]+(\\.[0-9]*)?|\\.[0-9]+)` followed by a unit name: no exponent.  Unit keeps the number as the Decimal built from
+    the caller's digits, and Decimal's own str() writes those digits back (it only uses an exponent when it was given one).  Anything
+    between the stored Decimal and str() — normalize() (100 -> 1E+2), a 'g'/'e'/'n' format, a trip through float — produces strings the
+    decoder (which keeps digits and '.' and calls the rest the unit) reads back as another value.  Rule: in Unit.__str__ the stored value
+    reaches the result only as `str(self.value)` / `{self.value}` without a format spec; Unit.__init__ stores Decimal(<digits>) and the
+    unit without rewriting either; the characters the parser accepts as number are digits and '.'.
+    """
+    repo = ctx.repo
+    ctx.rule("R18e", "Unit: the stored Decimal is written by plain str() and followed by the unit; the parser keeps digits and '.' as the number", floor=3)
+    f = repo.func("Unit.__str__")
+    init = repo.func("Unit.__init__")
+    stores = {}
+    for st in walk_no_nested(init.node):
+        if isinstance(st, ast.Assign) and isinstance(st.targets[0], ast.Attribute) and isinstance(st.targets[0].value, ast.Name) and st.targets[0].value.id == "self":
+            stores[st.targets[0].attr] = st
+    num_attr = next((a for a, st in stores.items() if isinstance(st.value, ast.Call) and call_name(st.value) == "Decimal"), None)
+    if num_attr is None:
+        raise AnalysisError("R18e: Unit.__init__ stores no Decimal")
+    unit_attr = next((a for a in stores if a != num_attr), None)
+    parents = {}
+    for r in walk_no_nested(f.node):
+        for ch in ast.iter_child_nodes(r):
+            parents[id(ch)] = r
+    rets = [r.value for r in walk_no_nested(f.node) if isinstance(r, ast.Return) and r.value is not None]
+    bad = []
+    seen_num = seen_unit = 0
+    for r in rets:
+        for x in ast.walk(r):
+            if isinstance(x, ast.Attribute) and isinstance(x.value, ast.Name) and x.value.id == "self":
+                par = parents.get(id(x))
+                if x.attr == num_attr:
+                    seen_num += 1
+                    ok = isinstance(par, ast.Call) and call_name(par) == "str" and len(par.args) == 1 and par.args[0] is x or \
+                        isinstance(par, ast.FormattedValue) and par.format_spec is None and par.conversion in (-1, 115)
+                    if not ok:
+                        bad.append((par if par is not None else x, f"the stored number reaches the result through `{norm(par, 40) if par is not None else norm(x, 40)}`"))
+                elif x.attr == unit_attr:
+                    seen_unit += 1
+    if not rets or not seen_num or not seen_unit:
+        bad.append((f.node, "the result is not built from the stored number and unit"))
+    ctx.instance("R18e", f"{f.file}:{f.ident}", f"str(self.{num_attr}) followed by self.{unit_attr}", ok=not bad, nontrivial=True, line=f.node.lineno)
+    for n_, why in bad[:2]:
+        ctx.report("R18e", f, n_, f"Unit.__str__: {norm(n_, 50)}",
+                   f"{why}, not through plain str(): Decimal writes back the digits it was given, but a normalised, formatted or float-converted number comes out with an "
+                   f"exponent or other digits (100 -> '1E+2cm'), which is not an ODF length and which Unit() itself reads back as another value and unit")
+    # constructor: nothing rewrites the number between the digits and Decimal(), nor the unit
+    bad = [c for c in walk_no_nested(init.node) if isinstance(c, ast.Call) and (isinstance(c.func, ast.Attribute) and c.func.attr in _NUM_REWRITE | {"strip", "lower", "upper", "replace"}
+                                                                                   or call_name(c) in ("round", "int"))]
+    ctx.instance("R18e", f"{init.file}:{init.ident}", f"self.{num_attr} = Decimal(<digits as given>), unit as given", ok=not bad, nontrivial=True, line=init.node.lineno)
+    for c in bad[:2]:
+        ctx.report("R18e", init, c, f"Unit.__init__: {norm(c, 50)}", f"Unit() rewrites what it was given with `{norm(c, 40)}`: the length that is written is not the length that was built")
+    # parser alphabet
+    from ..paths import if_arms
+    tests = [t for n_ in walk_no_nested(init.node) if isinstance(n_, ast.If) for t in [if_arms(n_)[0]]
+             if any(isinstance(x, ast.Call) and isinstance(x.func, ast.Attribute) and x.func.attr in ("isdigit", "isdecimal", "isnumeric") for x in ast.walk(t))]
+    ok = len(tests) == 1
+    extra = []
+    if ok:
+        t = tests[0]
+        for x in ast.walk(t):
+            if isinstance(x, ast.Compare):
+                for cmp_ in x.comparators:
+                    v = cmp_.value if isinstance(cmp_, ast.Constant) else None
+                    extra += list(v) if isinstance(v, str) else [repr(norm(cmp_, 20))]
+        ok = set(extra) <= {"."} and not any(isinstance(x, ast.Not) for x in ast.walk(t))
+    ctx.instance("R18e", f"{init.file}:{init.ident}", f"number characters: digits and {sorted(set(extra))}", ok=ok, nontrivial=True, line=init.node.lineno)
+    if not ok:
+        ctx.report("R18e", init, tests[0] if tests else init.node, f"number characters: digits and {sorted(set(extra))}",
+                   "the length parser takes characters other than digits and '.' into the number (or none at all): strings outside the ODF form decode to a wrong value instead of being rejected")
+
+
 def run(ctx):
     r18a(ctx)
     r18b(ctx)
     r18c(ctx)
     r18d(ctx)
+    r18e(ctx)
 
 
 from ..selftest import Seed, unparse_seed  # noqa: E402
@@ -456,6 +534,12 @@ from ..selftest import Seed, unparse_seed  # noqa: E402
 _DT = "src/odfdo/datatype.py"
 _CO = "src/odfdo/utils/color.py"
 SEEDS = [
+    Seed("Unit.__str__ normalises the Decimal", "fault", _DT, "        return str(self.value) + self.unit", "        return str(self.value.normalize()) + self.unit", "R18e"),
+    Seed("Unit.__str__ formats with %g", "fault", _DT, "        return str(self.value) + self.unit", '        return f"{self.value:g}{self.unit}"', "R18e"),
+    Seed("Unit.__str__ goes through float", "fault", _DT, "        return str(self.value) + self.unit", "        return str(float(self.value)) + self.unit", "R18e"),
+    Seed("Unit.__str__ forgets the unit", "fault", _DT, "        return str(self.value) + self.unit", "        return str(self.value)", "R18e"),
+    Seed("Unit.__str__ as an f-string", "neutral", _DT, "        return str(self.value) + self.unit", '        return f"{self.value}{self.unit}"'),
+    Seed("Unit parser takes the exponent letters into the number", "fault", _DT, '                if char.isdigit() or char == ".":', '                if char.isdigit() or char in ".eE+":', "R18e"),
     Seed("Duration.encode negates the days field only", "fault", _DT, '        days = value.days\n        if days < 0:\n            microseconds = -(\n                (days * 24 * 60 * 60 + value.seconds) * 1000000 + value.microseconds\n            )\n            sign = "-"\n        else:\n            microseconds = (\n                days * 24 * 60 * 60 + value.seconds\n            ) * 1000000 + value.microseconds\n            sign = ""\n', '        days = value.days\n        sign = ""\n        if days < 0:\n            days = -days\n            sign = "-"\n        microseconds = (\n            days * 24 * 60 * 60 + value.seconds\n        ) * 1000000 + value.microseconds\n', "R18d"),
     Seed("Duration.encode forgets the minus sign", "fault", _DT, '        days = value.days\n        if days < 0:\n            microseconds = -(\n                (days * 24 * 60 * 60 + value.seconds) * 1000000 + value.microseconds\n            )\n            sign = "-"\n        else:\n            microseconds = (\n                days * 24 * 60 * 60 + value.seconds\n            ) * 1000000 + value.microseconds\n            sign = ""\n', '        days = value.days\n        if days < 0:\n            microseconds = -(\n                (days * 24 * 60 * 60 + value.seconds) * 1000000 + value.microseconds\n            )\n            sign = ""\n        else:\n            microseconds = (\n                days * 24 * 60 * 60 + value.seconds\n            ) * 1000000 + value.microseconds\n            sign = ""\n', "R18d"),
     Seed("Duration.encode computes the total first, then its absolute value", "neutral", _DT, '        days = value.days\n        if days < 0:\n            microseconds = -(\n                (days * 24 * 60 * 60 + value.seconds) * 1000000 + value.microseconds\n            )\n            sign = "-"\n        else:\n            microseconds = (\n                days * 24 * 60 * 60 + value.seconds\n            ) * 1000000 + value.microseconds\n            sign = ""\n', '        microseconds = (value.days * 86400 + value.seconds) * 1000000 + value.microseconds\n        sign = ""\n        if microseconds < 0:\n            microseconds = -microseconds\n            sign = "-"\n'),
